@@ -351,6 +351,25 @@ class Engine(EngineBase):
             res["stats"]["notes"] = [str(info)[-300:]]
             return
         post_ok = snapshot(world.root)
+        # the state point the fault-free run actually produced belongs to the lineage too (C11 is
+        # about faults; whether the fault-free result is the requested one is C04's question)
+        if affected is not None:
+            for raw in self._observe(pps):
+                for jid, rj in raw.items():
+                    if job_valid(rj, jid) and rj["doc"][0] == "ok" and isinstance(rj["doc"][1], dict) \
+                            and rj["doc"][1].get("lin") == affected:
+                        lin[affected]["sps"].append(rj["sp"][1])
+            if sc.get("new_sp") is not None and not any(
+                    job_valid(rj, cid(sc["new_sp"])) for raw in self._observe(pps)
+                    for jid, rj in raw.items() if jid == cid(sc["new_sp"])) and info["outcome"] == "ok" \
+                    and kind not in ("move", "clone"):
+                res["stats"]["probes"]["faultfree_result_not_requested_sp"] = 1
+                # a payload-free job: find the directory that appeared instead
+                pre_ids = {k for k in pre_dirs}
+                for pi, raw in enumerate(self._observe(pps)):
+                    for jid, rj in raw.items():
+                        if (pi, jid) not in pre_ids and job_valid(rj, jid):
+                            lin[affected]["sps"].append(rj["sp"][1])
         trace = info["trace"]
         ff_outcome = info["outcome"] + (":" + info["exc_type"] if info["outcome"] == "exc" else "")
         res["trace_sample"] = [f"{i} {k} {r}" + (f" -> {r2}" if r2 else "") + (f" {n}B" if n else "")
